@@ -45,7 +45,7 @@ var (
 	na, nb, nc, nz = model.N("/u", "a"), model.N("/u", "b"), model.N("/u", "c"), model.N("/u", "z")
 	zonePlus2      = time.FixedZone("plus2", 2*3600)
 	opT1           = model.OP(model.PT("p", model.T1))
-	opR0           = model.OP(model.PT("r", t0x))
+	opR0           = model.OP(model.PI("r")) // an IMMUTABLE predicate as object, under a temporal triple predicate
 	opP2           = model.OP(model.PT("p", t2x))
 )
 
